@@ -1037,3 +1037,67 @@ func ReturnValue(r *ssa.Return, i int) ssa.Value {
 	}
 	return v
 }
+
+// FeasiblePaths enumerates loop-free paths from entry to target's block like
+// AcyclicPaths, but prunes at every If whose condition resolves, along the
+// path so far, to a boolean constant (flag variables assigned constants on
+// earlier branches). This is constant propagation along paths; values computed
+// from calls stay unknown and both edges are followed.
+func FeasiblePaths(target ssa.Instruction, max int) (paths []Path, pruned int, ok bool) {
+	fn := target.Parent()
+	tb := target.Block()
+	ok = true
+	onPath := map[*ssa.BasicBlock]bool{}
+	var cur Path
+	var dfs func(b *ssa.BasicBlock)
+	dfs = func(b *ssa.BasicBlock) {
+		if !ok {
+			return
+		}
+		cur = append(cur, b)
+		onPath[b] = true
+		if b == tb {
+			cp := make(Path, len(cur))
+			copy(cp, cur)
+			paths = append(paths, cp)
+			if len(paths) > max {
+				ok = false
+			}
+		} else {
+			only := -1
+			if iff, isIf := b.Instrs[len(b.Instrs)-1].(*ssa.If); isIf {
+				v := cur.Resolve(iff.Cond)
+				neg := false
+				for {
+					if u, isU := v.(*ssa.UnOp); isU && u.Op == token.NOT {
+						neg = !neg
+						v = cur.Resolve(u.X)
+						continue
+					}
+					break
+				}
+				if cb, isC := ConstBool(v); isC {
+					if cb != neg {
+						only = 0
+					} else {
+						only = 1
+					}
+				}
+			}
+			for i, s := range b.Succs {
+				if only >= 0 && i != only {
+					pruned++
+					continue
+				}
+				if onPath[s] {
+					continue
+				}
+				dfs(s)
+			}
+		}
+		onPath[b] = false
+		cur = cur[:len(cur)-1]
+	}
+	dfs(fn.Blocks[0])
+	return paths, pruned, ok
+}
